@@ -13,27 +13,6 @@ open CylcModel.Bcast
 
 /-! ## 1. precedence -/
 
-theorem get_fold (st : Store) (hst : NodupKeys st) (path : Path) :
-    ∀ (srcs : List (String × String)) (acc : AList Path), NodupKeys acc →
-      NodupKeys (srcs.foldl (fun acc (cn : String × String) => upsertAll acc (entriesOf st cn.1 cn.2)) acc) ∧
-      lookup (srcs.foldl (fun acc (cn : String × String) => upsertAll acc (entriesOf st cn.1 cn.2)) acc) path =
-        match lastSome (srcs.map fun cn => lookup st ⟨cn.1, cn.2, path⟩) with
-        | some v => some v
-        | none => lookup acc path := by
-  intro srcs
-  induction srcs with
-  | nil => intro acc h; exact ⟨h, by simp [lastSome]⟩
-  | cons cn r ih =>
-    intro acc hacc
-    simp only [List.foldl_cons, List.map_cons, lastSome]
-    have hn := nodup_upsertAll (entriesOf st cn.1 cn.2) hacc
-    obtain ⟨h1, h2⟩ := ih (upsertAll acc (entriesOf st cn.1 cn.2)) hn
-    refine ⟨h1, ?_⟩
-    rw [h2, lookup_upsertAll _ (nodup_entriesOf hst cn.1 cn.2), lookup_entriesOf]
-    cases lastSome (r.map fun cn => lookup st ⟨cn.1, cn.2, path⟩) with
-    | some v => rfl
-    | none => cases lookup st ⟨cn.1, cn.2, path⟩ <;> rfl
-
 /-- `get_broadcast` of a task: for every item, the value is the one of the **last** source that
 defines it, in the order
   all-cycle broadcasts (`*`, then the aliases) to root, ..., ancestors, ..., the task itself,
@@ -144,6 +123,100 @@ theorem expire_exact (st : Store) (cutoff : Option Nat) :
 example :
     let st : Store := [(⟨"1", "root", ["script"]⟩, "a"), (⟨"*", "root", ["script"]⟩, "b"), (⟨"3", "t", ["script"]⟩, "c")]
     (expire st (some 3)).1 = [(⟨"*", "root", ["script"]⟩, "b"), (⟨"3", "t", ["script"]⟩, "c")] ∧ (expire st none).1 = [] := by
+  decide
+
+/-! ## 3. after a restart the broadcast state is identical -/
+
+/-- every reachable store has distinct keys (so the precedence theorems apply to it) and the
+database, once written, holds it item by item -/
+theorem run_persist (known : List String) (ops : List Op) (hsafe : ∀ op ∈ ops, SafeOp op) :
+    Persist (run true known ops) ∧ NodupKeys (run true known ops).store :=
+  ⟨persist_run known ops {} hsafe persist_init, (persist_run known ops {} hsafe persist_init).storeNodup⟩
+
+/-- The full-strength statement, for a given behaviour of the change iterator: after any history a
+clean stop and restart gives back the same broadcast state. -/
+def reload_identity_full (allKeys : Bool) : Prop :=
+  ∀ (known : List String) (ops : List Op) (k : Key),
+    lookup (step allKeys known (run allKeys known ops) .restart).store k = lookup (run allKeys known ops).store k
+
+/-- **Restart identity.** For the behaviour "every item of a setting is recorded"
+(`changeIterAllKeys = true`, the repaired `get_broadcast_change_iter`): after *any* history of
+put / clear / expire operations, database writes at arbitrary moments and earlier restarts — with
+any points, namespaces, values, multi-item and nested settings — a clean stop and restart
+rebuilds, from the `broadcast_states` table, a store that gives the same value (or absence) for
+every (point, namespace, key path); and what is in the table after a write is the store, item by
+item.  Hypothesis: the key paths set in the history are representable in the `key` column
+(`SafeOp`: no `[` / `]` inside a name, section names non-empty) — without it the statement is false,
+`reload_identity_counterexample`. -/
+theorem reload_identity_partial (known : List String) (ops : List Op) (hsafe : ∀ op ∈ ops, SafeOp op) :
+    (∀ k, lookup (step true known (run true known ops) .restart).store k = lookup (run true known ops).store k) ∧
+    (∀ k, SafeKey k →
+      lookup (run true known ops).db.flush.rows (renderK k) = lookup (run true known ops).store k) := by
+  have h := (run_persist known ops hsafe).1
+  constructor
+  · exact (persist_restart _ _ h).2
+  · intro k hk
+    rw [lookup_flush]
+    exact h.view k hk
+
+/-- The same statement for the behaviour probed on the live code: it applies as soon as the generated
+flag says that the live `get_broadcast_change_iter` records every item. -/
+theorem reload_identity_live (hlive : Generated.BcastCfg.changeIterAllKeys = true)
+    (known : List String) (ops : List Op) (hsafe : ∀ op ∈ ops, SafeOp op) :
+    ∀ k, lookup (step Generated.BcastCfg.changeIterAllKeys known (run Generated.BcastCfg.changeIterAllKeys known ops) .restart).store k
+      = lookup (run Generated.BcastCfg.changeIterAllKeys known ops).store k := by
+  rw [hlive]
+  exact (reload_identity_partial known ops hsafe).1
+
+/-- The same for the unrepaired iterator (`changeIterAllKeys = false`, first item only), on the
+domain where it loses nothing: every setting dictionary holds a single item (what the command line
+sends). -/
+theorem reload_identity_single_item_partial (known : List String) (ops : List Op)
+    (hsafe : ∀ op ∈ ops, SafeOp op) (hsingle : ∀ op ∈ ops, SingleItems op) :
+    ∀ k, lookup (step false known (run false known ops) .restart).store k = lookup (run false known ops).store k := by
+  have hrun : ∀ (ops : List Op) (s : State), (∀ op ∈ ops, SingleItems op) →
+      ops.foldl (step false known) s = ops.foldl (step true known) s := by
+    intro ops
+    induction ops with
+    | nil => intro s _; rfl
+    | cons op r ih =>
+      intro s hs
+      simp only [List.foldl_cons]
+      rw [step_single known s op (hs op (by simp)), ih _ (fun o ho => hs o (by simp [ho]))]
+  have : run false known ops = run true known ops := hrun ops {} hsingle
+  rw [this]
+  exact (reload_identity_partial known ops hsafe).1
+
+/-- non-vacuity: a history with a multi-item nested setting, a clear of one item, a pending
+re-put and an expiry satisfies the hypotheses, and its store is not empty -/
+example :
+    let ops : List Op := [
+      .put ["1", "*"] ["root", "t"] [[(["environment", "A"], "1"), (["environment", "B"], "2"), (["script"], "x")]],
+      .flush,
+      .clear ⟨["1"], [], [["environment", "A"]]⟩,
+      .put ["02"] ["t"] [[(["script"], "y")]],
+      .expire (some 2)]
+    (∀ op ∈ ops, SafeOp op) ∧ (run true ["root", "t"] ops).store.length = 7 := by
+  decide
+
+/-- With the first-item-only iterator (the unrepaired code) the full statement is false: a
+two-item setting loses its second item over a restart. -/
+theorem reload_first_item_only_counterexample :
+    ¬ ∀ (known : List String) (ops : List Op), (∀ op ∈ ops, SafeOp op) →
+      ∀ k, lookup (step false known (run false known ops) .restart).store k = lookup (run false known ops).store k := by
+  intro h
+  have := h ["root"] [.put ["1"] ["root"] [[(["environment", "A"], "1"), (["environment", "B"], "2")]]]
+    (by decide)
+    ⟨"1", "root", ["environment", "B"]⟩
+  revert this
+  decide
+
+/-- Without the hypothesis on brackets the statement is false even with the repaired iterator:
+the item `a]b` of `[directives]` comes back as `b`. -/
+theorem reload_identity_counterexample : ¬ reload_identity_full true := by
+  intro h
+  have := h ["root"] [.put ["1"] ["root"] [[(["directives", "a]b"], "1")]]] ⟨"1", "root", ["directives", "a]b"]⟩
+  revert this
   decide
 
 end CylcModel.C22
